@@ -48,6 +48,8 @@ def check_root(name, variant, tier, seed, res=None, only=None):
 
 
 def _vj(variant):
+    if variant[0] == "thin":
+        return list(variant)
     return [variant[0]] + ([list(variant[1]), variant[2], variant[3]] if len(variant) > 1 else [])
 
 
@@ -71,7 +73,7 @@ def run_shard(shard, tier, seed):
 
 def replay(case):
     v = case["variant"]
-    variant = ("bulk",) if v[0] == "bulk" else ("slab", tuple(v[1]), v[2], v[3])
+    variant = ("bulk",) if v[0] == "bulk" else (tuple(v) if v[0] == "thin" else ("slab", tuple(v[1]), v[2], v[3]))
     viol, _ = check_root(case["material"], variant, case.get("tier", "quick"), case.get("seed", 0), None, only=(case["presentation"], case["script"]))
     out = []
     for label, script, kind, d in viol:
@@ -88,7 +90,7 @@ def describe(tier, seed):
             excluded[n] = r
     return {
         "rule": "catalogue = every elemental fcc/bcc/hcp/diamond/sc reference crystal and the listed compound prototypes that pass the independent precondition%s; per material: bulk supercell (heights > 12.5 A) and slabs "
-                "(facets per crystal type x %s surface-cell layers x {TTF, TTT+vacuum}); per root: identity, two noise fields (0.05 and 0.02 A), generic rotation, translation out of the cell, reversed atom order%s; "
+                "(facets per crystal type x %s surface-cell layers x {TTF, TTT+vacuum}) and, for the elemental materials, slabs with exactly 3 (and 4) atomic layers from the dedicated ASE builders; per root: identity, two noise fields (0.05 and 0.02 A), generic rotation, translation out of the cell, reversed atom order%s; "
                 "seed-choice scripts (first choice ranks %s) on the identity and the 0.05 A presentation. states = get_clusters executions, transitions = seed choices" % (
                     " (quick tier: a fixed 15-material subset)" if tier == "quick" else "", "3" if tier == "quick" else "3 and 4",
                     "" if tier == "quick" else ", all 4 noise rows at both amplitudes, rotation+noise, roll+translation, single-atom kick", "{0, n/2, n-1}" if tier == "quick" else "{0,1,n/4,n/2,3n/4,n-1}"),
